@@ -150,6 +150,75 @@ def c05_overload_groups(role: int, i: int, j: int, k: int, nsdepth: int) -> bool
     return ok
 
 
+# ---------------------------------------------------------------- classes that share their unqualified name
+LEAF_NS = [(("alpha",), ("beta",)), (("alpha",), ("alpha", "inner")), (("gt", "noise"), ("gt", "noise", "est")), ((), ("beta",))]
+
+
+def check_same_leaf(a, b, layout, virt, derive):
+    nsa, nsb = LEAF_NS[layout]
+    da, db = ms.decode_class(a, 0, None), ms.decode_class(b, 1, None)
+    for d in (da, db):
+        d["name"] = "Node"
+        d["serialize"] = False
+        if d["base"] == 1:
+            d["base"], d["base_name"] = 0, None
+        d["ctors"] = [[x for x in c] for c in d["ctors"]]
+    da["virtual"] = db["virtual"] = virt
+    if derive and virt:
+        db["base"], db["base_name"] = 1, "::".join(nsa + ("Node",))      # the later Node derives from the earlier one
+    # statics returning `This` keep working under the shared name; nothing else refers to the class by name
+    def block(path, body):
+        return "".join("namespace %s { " % x for x in path) + body + " }" * len(path)
+    text = ms.PRELUDE + block(nsa, ms.render_class(da, False)) + "\n" + block(nsb, ms.render_class(db, False)) + "\n"
+    files, cpp = ms.run_toolbox(text)
+    problems = ms.check_dispatch(files, cpp, [da, db], (), [], False)
+    # each class's up-cast case must reach the routine that casts to ITS C++ type
+    import re
+    for path, d in ((nsa, da), (nsb, db)):
+        if not d["virtual"]:
+            continue
+        cppname = "::".join(path + ("Node",))
+        key = "".join("+%s/" % x for x in path) + "Node.m"
+        m = re.search(r"my_ptr = \w+\((\d+), varargin\{2\}\);", files.get(key, ""))
+        if not m:
+            problems.append("%s: no up-cast call site" % key)
+            continue
+        rn = dict(readers_cases(cpp)).get(int(m.group(1)))
+        body = dict(readers_routines(cpp)).get(rn, "")
+        if ("<%s>" % cppname) not in body.replace(" ", ""):
+            problems.append("up-cast of %s (id %s) reaches %s, which does not cast to %s" % (cppname, m.group(1), rn, cppname))
+    if problems:
+        return _fail(text=text, problems=problems)
+    return True
+
+
+def readers_cases(cpp):
+    from harness import readers
+    return readers.mex_cases(cpp)
+
+
+def readers_routines(cpp):
+    from harness import readers
+    return readers.mex_routines(cpp)
+
+
+def c05_same_leaf(a: int, b: int, layout: int, virt: int, derive: int) -> bool:
+    """
+    Two classes with the SAME unqualified name in different namespaces (siblings, nested, three deep, global + namespaced),
+    virtual or not, the later one optionally derived from the earlier: ids, cases and routines agree, and each class's
+    up-cast / collector / destructor call site reaches the routine of its own C++ type.
+    pre: 0 <= a < NREP and 0 <= b < NREP and 0 <= layout < len(LEAF_NS) and 0 <= virt <= 1 and 0 <= derive <= 1
+    post: _
+    """
+    a, layout, virt = pick(a, 0, NREP), pick(layout, 0, len(LEAF_NS)), pick(virt, 0, 2)
+    b = pick(b, 0, NREP) if THOROUGH else (a * 5 + layout + 1) % NREP
+    derive = pick(derive, 0, 2) if virt else 0
+    with concrete():
+        ok = check_same_leaf(REPS[a], REPS[b], layout, virt, derive)
+    reached({"a": REPS[a], "b": REPS[b], "layout": layout, "virtual": virt, "derive": derive} if (not ok or (a == 3 and layout == 2)) else None)
+    return ok
+
+
 def conds(tier):
     q = tier == "quick"
     t = (lambda x, y: x) if q else (lambda x, y: y)
@@ -159,6 +228,8 @@ def conds(tier):
                 bounds="all %d class shapes%s" % (NC, " x both serialization settings x serialize marker (namespace depth derived)" if not q else "; serialization / marker / namespace depth derived from the shape code")),
         xh.Cond(M, "c05_overload_groups", t(420, 1800), path_timeout=60, kind="shape-bounded", examples=["role=0, i=2, j=0, k=3, nsdepth=0", "role=0, i=0, j=1, k=3, nsdepth=0", "role=1, i=0, j=1, k=4, nsdepth=1", "role=3, i=5, j=2, k=6, nsdepth=2", "role=2, i=6, j=1, k=0, nsdepth=0"],
                 bounds="4 roles x %s ordered triples of 7 parameter lists (same-guard pairs included)%s" % ("all" if not q else "every second of the", " x namespace depth 0-2" if not q else "; namespace depth derived")),
+        xh.Cond(M, "c05_same_leaf", t(300, 1800), path_timeout=60, kind="shape-bounded", examples=["a=3, b=4, layout=2, virt=1, derive=0", "a=1, b=1, layout=0, virt=1, derive=1", "a=7, b=2, layout=3, virt=0, derive=0"],
+                bounds="%s class-shape pairs under one unqualified name x 4 namespace layouts x virtual x derived" % ("%d x %d" % (NREP, NREP) if not q else "%d (second derived)" % NREP)),
         xh.Cond(M, "c05_two_classes", t(420, 3000), path_timeout=60, kind="shape-bounded", examples=["a=3, b=77, fshape=2, boost=0", "a=7, b=383, fshape=3, boost=1"],
                 bounds=("%d representative first classes x every third of the %d class shapes as second class (free-function shape / serialization derived)" % (NREP, NC)) if not q else ("%d x %d representative class pairs; free-function shape and serialization derived" % (NREP, NREP))),
         xh.Cond(M, "c05_three_classes", t(420, 3000), path_timeout=60, kind="shape-bounded", examples=["a=1, b=5, c=9, fshape=3"],
